@@ -866,33 +866,20 @@ def direct_checks(rep):
 # Known findings: classification of a disagreement by the shape of the layout (model verdict: run_C14 "gaps")
 # ---------------------------------------------------------------------------------------------------------------
 def classify_failure(kind, detail, gaps, loaded_cls=None):
-    """-> finding id, "scope" (outside the stated domain, counted), or None (new violation)."""
+    """-> finding id, "scope" (outside the stated domain, counted), or None (new violation).
+    Repaired findings (F1 plain-module parent, F2 .pth order, F4 dot-file, F9 compiled __init__ stem) have no classifier."""
     g = set(gaps)
     if kind == "paths":
-        for tag, fid in (("F2u", "C14-F2"), ("F6", "C14-F6"), ("F7", "C14-F7")):
+        for tag, fid in (("F6", "C14-F6"), ("F7", "C14-F7")):
             if tag in g:
                 return fid
-    elif kind == "order-find":
-        if "F2m" in g and detail["a"][:2] != detail["b"][:2]:
-            return "C14-F2"
     elif kind == "order-tree":
-        if "F2m" in g:
-            return "C14-F2"
         if "F5" in g:
             return "C14-F5"
     elif kind == "find":
         if "nsdecl-mixed" in g:
             return "scope"
-    elif kind == "load-raises":
-        if "F4" in g and detail["griffe"] == ["err", "ValueError"]:
-            return "C14-F4"
     elif kind == "loaded-not-importable":
-        parts = detail["module"].split(".")
-        under_plain = loaded_cls is not None and any(loaded_cls.get(".".join(parts[:k])) == "M" for k in range(1, len(parts)))
-        if "F1" in g and under_plain:
-            return "C14-F1"
-        if "F9" in g and detail["griffe"][0] == "NS":
-            return "C14-F9"
         if "F3" in g and detail["cpython"][0] in ("notfound", "ns"):
             return "C14-F3"
         if "F8" in g:
@@ -917,23 +904,11 @@ def py_gaps(case):
 
     def rec(l, inpc):
         if not inpc:
-            names = {n: x for n, x in l}
             stems = {}
             for n, x in l:
-                if x[0] != "f":
-                    continue
-                if n.endswith((".py", ".pyi")):
-                    st = n[:-3] if n.endswith(".py") else n[:-4].split(".")[0]
-                    d = names.get(st)
-                    if d is not None and d[0] == "d" and not any(m == "__init__.py" and y[0] == "f" for m, y in d[1]):
-                        g.add("F1")
-                if n.endswith(".pyi"):
+                if x[0] == "f" and n.endswith(".pyi"):
                     st = n[:-4].split(".")[0]
                     stems[st] = stems.get(st, 0) + 1
-                if n.startswith(".") and n.endswith((".pyi", ".so", ".pyc", ".pyd", ".pyo")) and "." in n[1:-1]:
-                    g.add("F4")
-                if n.startswith("__init__.") and n.count(".") >= 2 and n.endswith((".so", ".pyc", ".pyd", ".pyo", ".pyi")):
-                    g.add("F9")
             if any(v > 1 for v in stems.values()):
                 g.add("F5")
         for n, x in l:
@@ -942,24 +917,20 @@ def py_gaps(case):
     targets = set()
     for i, l in case["dirs"]:
         rec(l, False)
-        pths = [(n, x) for n, x in l if x[0] == "f" and n.endswith(".pth") and len(n) > 4]
-        if [n for n, _ in pths] != sorted(n for n, _ in pths):
-            g.add("F2u")
-        if len(pths) > 1:
-            g.add("F2m")
-        for n, x in pths:
-            for z in x[2]:
-                if isinstance(z, str) and _REL_LINE.match(z.strip()):
-                    g.add("F6")
-                    targets.add(int(_REL_LINE.match(z.strip()).group(1)))
-                elif isinstance(z, int):
-                    targets.add(z)
+        for n, x in l:
+            if x[0] == "f" and n.endswith(".pth") and len(n) > 4:
+                for z in x[2]:
+                    if isinstance(z, str) and _REL_LINE.match(z.strip()):
+                        g.add("F6")
+                        targets.add(int(_REL_LINE.match(z.strip()).group(1)))
+                    elif isinstance(z, int):
+                        targets.add(z)
     for i, l in case["dirs"]:
         if i in targets and any(x[0] == "f" and n.endswith(".pth") for n, x in l):
             g.add("F7")
     tops = [x for i, l in case["dirs"] for n, x in l if n == case["name"] and x[0] == "d"]
     if len(tops) > 1:
-        g.update(("F3", "F8", "F10", "F1", "F9"))
+        g.update(("F3", "F8", "F10"))
     if any(m == "__init__.py" and y[0] == "f" and y[1] for x in tops for m, y in x[1]):
         g.add("nsdecl-mixed")
     return sorted(g)
@@ -973,31 +944,35 @@ def _pkg(*entries):
 
 
 WITNESSES = {
-    "C14-F1": ({"dirs": [[0, [["aa", _pkg(["bar.py", F()], ["bar", D([["inner.py", F()]])])]]]], "search": [0], "name": "aa"},
-               "loaded-not-importable"),
-    "C14-F2": ({"dirs": [[0, [["b.pth", F(0, [1])], ["a.pth", F(0, [2])]]],
-                         [1, [["aa", _pkg(["one.py", F()])]]], [2, [["aa", _pkg(["two.py", F()])]]]], "search": [0], "name": "aa"},
-               "order-find"),
     "C14-F3": ({"dirs": [[0, [["aa", D([["sub", _pkg(["a.py", F()])]])]]],
                          [1, [["aa", D([["sub", D([["x.py", F()], ["other", _pkg(["z.py", F()])]])]])]]]], "search": [0, 1], "name": "aa"},
                "loaded-not-importable"),
-    "C14-F4": ({"dirs": [[0, [["aa", _pkg(["m.py", F()], [".x.pyi", F()])]]]], "search": [0], "name": "aa"}, "load-raises"),
     "C14-F5": ({"dirs": [[0, [["aa", _pkg(["r.pyi", F()], ["r.x.pyi", F()])]]]], "search": [0], "name": "aa"}, "order-tree"),
     "C14-F6": ({"dirs": [[0, [["a.pth", F(0, ["../d1"])]]], [1, [["aa", _pkg(["m.py", F()])]]]], "search": [0], "name": "aa"}, "paths"),
     "C14-F7": ({"dirs": [[0, [["a.pth", F(0, [1])]]], [1, [["b.pth", F(0, [2])]]], [2, [["aa", _pkg(["m.py", F()])]]]], "search": [0], "name": "aa"},
                "paths"),
     "C14-F8": ({"dirs": [[0, [["aa", D([["n.py", F()], ["x.py", F()]])]]], [1, [["aa", D([["n.py", F()]])]]]], "search": [0, 1], "name": "aa"},
                "loaded-not-importable"),
-    "C14-F9": ({"dirs": [[0, [["aa", D([["sub", D([["deep", D([["__init__" + EXT_SUFFIX, F()]])]])]])]]],
-                         [1, [["aa", D([["sub", D([["b.py", F()]])]])]]]], "search": [0, 1], "name": "aa"}, "loaded-not-importable"),
     "C14-F10": ({"dirs": [[0, [["aa", D([["sub", D([["early.py", F()]])]])]]], [1, [["aa", D([["sub", _pkg(["late.py", F()])]])]]]],
                  "search": [0, 1], "name": "aa"}, "loaded-not-importable"),
+}
+
+# witnesses of the repaired findings: ordinary corpus layouts now, they must PASS (no classifier is left for them)
+FIXED_WITNESSES = {
+    "C14-F1": ({"dirs": [[0, [["aa", _pkg(["bar.py", F()], ["bar", D([["inner.py", F()]])])]]]], "search": [0], "name": "aa"},
+               "loaded-not-importable"),
+    "C14-F2": ({"dirs": [[0, [["b.pth", F(0, [1])], ["a.pth", F(0, [2])]]],
+                         [1, [["aa", _pkg(["one.py", F()])]]], [2, [["aa", _pkg(["two.py", F()])]]]], "search": [0], "name": "aa"},
+               "order-find"),
+    "C14-F4": ({"dirs": [[0, [["aa", _pkg(["m.py", F()], [".x.pyi", F()])]]]], "search": [0], "name": "aa"}, "load-raises"),
+    "C14-F9": ({"dirs": [[0, [["aa", D([["sub", D([["deep", D([["__init__" + EXT_SUFFIX, F()]])]])]])]]],
+                         [1, [["aa", D([["sub", D([["b.py", F()]])]])]]]], "search": [0, 1], "name": "aa"}, "loaded-not-importable"),
 }
 
 
 def targeted_cases():
     """Hand-picked layouts around every decision of the anchored code."""
-    cs = [w for w, _ in WITNESSES.values()]
+    cs = [w for w, _ in WITNESSES.values()] + [w for w, _ in FIXED_WITNESSES.values()]
     mk = lambda dirs, search: {"dirs": [[i, l] for i, l in enumerate(dirs)], "search": search, "name": TOP}
     cs += [
         # precedence across search paths
@@ -1146,20 +1121,22 @@ def gen_ns_case(rng):
 LEVEL_TEXT = ("Coq theorems over an executable model of finder.py/loader.py discovery, for all layouts, search-path lists and listing orders: "
               "(1) find_package = CPython's PathFinder/FileFinder precedence on source-form layouts, the three exclusions shown necessary; "
               "(2) find_package is listing-order independent; (3) the loader's fold over any depth-sorted submodule list is characterised key by key "
-              "(a dotted name is present iff every prefix has a loadable file; value = merge of its candidates); (4) hence the static load of a regular "
-              "package of any depth is invariant under every permutation of every directory listing unless two files claim one module name; "
-              "(5) loaded => importable: every module loaded below a regular package of any depth is the file CPython's import system resolves that dotted "
-              "name to (or a stub where CPython has no regular module), modulo the shapes of findings F1/F5 and on source-form trees, with the hypotheses "
-              "in decidable form evaluated by the extracted model on every generated layout; (6) the .pth loop's fuel always suffices. "
-              "The unrestricted statements are refuted on the unchanged code by 10 machine-checked witnesses, one per finding, each with a decidable shape predicate. "
+              "(a dotted name is present iff every proper prefix is taken by a package and it has a loadable file; value = merge of its candidates); "
+              "(4) hence the static load of a regular package of any depth is invariant under every permutation of every directory listing unless two files "
+              "claim one module name; (5) loaded => importable: every module loaded below a regular package of any depth is the file CPython's import system "
+              "resolves that dotted name to (or a stub where CPython has no regular module), on source-form trees without same-name clashes (F5), hypotheses in "
+              "decidable form evaluated by the extracted model on every generated layout; (6) static loading is total (only a directory named like a module file "
+              "errors) and the .pth loop's fuel always suffices. Four defects were repaired (F1, F2, F4, F9: their refutations are gone and the theorems hold of the "
+              "repaired model); six remain known, each refuted by a machine-checked witness with a decidable shape predicate. "
               "The model is tied to the code by differential runs (Griffe under wrapped os.scandir/os.listdir vs model vs CPython in a subprocess).")
 LEVEL_NOTE = ("Static mode only (allow_inspection=False): compiled names are discovered but not loaded; modules whose CPython spec is a compiled file are out of scope. "
               "NOT proved, only checked by the direct Griffe-vs-CPython evaluation on generated layouts: 'walk_packages found => loaded', classification against CPython, "
               "namespace packages over several portions (theorems 3-5 are for regular top-level packages; the namespace machinery seen/skip and namespace-parent creation "
-              "is modelled and correspondence-checked, and is where findings F3/F8/F9/F10 live), agreement of the .pth extension with site.addsitedir outside F2/F6/F7, "
-              "load-by-name vs load-by-path (_module_name_path/_top_module_name are not modelled; compared on the implementation for top-level directories). "
-              "The order-invariance theorem excludes, through no_clash, the module-next-to-package case (foo.py and foo/__init__.py), which holds by os.walk's files-first "
-              "contract and is covered by the exhaustive clash family only. Editable-install .pth import lines, find_stubs_package and zip imports are not modelled.")
+              "is modelled and correspondence-checked, and is where findings F3/F8/F10 live), agreement of the .pth extension with site.addsitedir outside F6/F7 and its "
+              "listing-order independence (sorted() is modelled by an insertion sort, no theorem), load-by-name vs load-by-path (_module_name_path/_top_module_name are "
+              "not modelled; compared on the implementation for top-level directories). The order-invariance theorem excludes, through no_clash, the module-next-to-package "
+              "case (foo.py and foo/__init__.py), which holds by os.walk's files-first contract and is covered by the exhaustive clash family only. "
+              "Editable-install .pth import lines, find_stubs_package and zip imports are not modelled.")
 RULE = ("targeted layouts (witness of every finding, every precedence decision); exhaustive same-name clash family (subsets of "
         "m.py/m.pyi/m.so/m.pyc/m/ with and without __init__, every permutation of the package listing); seeded random layouts over 1-3 search paths "
         "+ .pth-added paths (regular/namespace/stub/pkgutil-style/module/compiled top-level forms, nested packages to depth 4, junk, __pycache__, "
